@@ -2,11 +2,11 @@
    Property theorems only; every proof is [exact <lemma>] (or a two-line
    instantiation of one).
 
-   Model: Format.v (format.go + multiline.go).  [format no_fixes] / [nl_after false]
-   / [skel_step false] are the code as it is, the [true] variants carry the two
-   repairs proposed in proposed_fixes/ (nlAfter marks the LAST statement of a
-   run; the closing bracket of a multi-line literal is indented also after a
-   trailing comment item).
+   Model: Format.v (format.go + multiline.go).  [current_fixes] = [all_fixes] is the
+   code as it is now (/repo 6dbe4ed: nlAfter marks the statement directly before
+   the comment run; c2656fe: the closing bracket of a multi-line literal is indented
+   also after a trailing comment item); [no_fixes] / [nl_after false] / [skel_step false]
+   are the code before those commits, kept for the regression lemmas.
 
    Proved for ALL formatter trees + side tables satisfying wf_prog:
      - shape: every line is 4k spaces followed by text without white space at
@@ -19,10 +19,10 @@
    Proved for ALL statement-kind skeletons (blank / comment / statement / func):
      - a statement that nlAfter marks is always followed by a non-blank one
        (so the inserted blank line never doubles an existing one), both variants;
-     - with the repaired nlAfter one formatting pass is idempotent on the
-       skeleton and leaves nothing marked;
-     - the unchanged nlAfter is NOT idempotent (refuted, witness replayed on
-       the implementation by harness/c07.go: format-not-idempotent-comment-before-func).
+     - one formatting pass of the model in force is idempotent on the skeleton and
+       leaves nothing marked;
+     - nlAfter as it was before 6dbe4ed is NOT idempotent (regression lemma; the witness
+       is still replayed on the implementation by harness/c07.go, which now must pass).
    `evy fmt -c`: the model of main.go's check accepts t iff t = format (parse t);
    it accepts the formatter's own output iff formatting that output again
    changes nothing.
@@ -33,7 +33,7 @@
    harness/c07.go.  The tie between [skel_step] and the real re-parse is checked
    there too (skeleton-step-differs). *)
 From Coq Require Import ZArith NArith List Bool String.
-From EvyV Require Import Base FmtAst Format FormatProofs FormatNlProofs FormatShapeProofs FormatSpecProofs.
+From EvyV Require Import Base FmtAst Format FormatProofs FormatNlProofs FormatShapeProofs FormatSpecProofs FormatDepthProofs.
 Import ListNotations.
 Open Scope N_scope.
 
@@ -84,22 +84,53 @@ Theorem C07_marked_statement_is_followed_by_nonblank : forall (fixed : bool) (ks
 Proof. exact nl_after_next_nonblank. Qed.
 Print Assumptions C07_marked_statement_is_followed_by_nonblank.
 
-(* idempotence of the blank-line logic (nlAfter after blank-run squeezing), repaired variant *)
-Theorem C07_blank_line_logic_idempotent_fixed : forall ks : list skind,
-  skel_step true (skel_step true ks) = skel_step true ks.
+(* idempotence of the blank-line logic (nlAfter after blank-run squeezing) of the model in
+   force ([current_fixes]: nlAfter as repaired by /repo 6dbe4ed), for every skeleton *)
+Theorem C07_blank_line_logic_idempotent : forall ks : list skind,
+  skel_step (fix_nl current_fixes) (skel_step (fix_nl current_fixes) ks) = skel_step (fix_nl current_fixes) ks.
 Proof. exact skel_step_fixed_idempotent. Qed.
-Print Assumptions C07_blank_line_logic_idempotent_fixed.
+Print Assumptions C07_blank_line_logic_idempotent.
 
-Theorem C07_blank_line_logic_stable_fixed : forall ks : list skind,
-  nl_after true (skel_step true ks) = [].
+Theorem C07_blank_line_logic_stable : forall ks : list skind,
+  nl_after (fix_nl current_fixes) (skel_step (fix_nl current_fixes) ks) = [].
 Proof. exact skel_step_fixed_stable. Qed.
-Print Assumptions C07_blank_line_logic_stable_fixed.
+Print Assumptions C07_blank_line_logic_stable.
 
-(* ... and of the code as it is: refuted.  a := 1 / b := 2 / // c / func f *)
-Theorem C07_format_idempotent_refuted : exists ks : list skind,
+(* regression lemma about nlAfter as it was before 6dbe4ed (it marked the FIRST statement of
+   the run): not idempotent.  a := 1 / b := 2 / // c / func f *)
+Theorem C07_format_idempotent_before_fix_refuted : exists ks : list skind,
   skel_step false (skel_step false ks) <> skel_step false ks.
 Proof. exists [KStmt; KStmt; KComment; KFunc]. vm_compute. discriminate. Qed.
-Print Assumptions C07_format_idempotent_refuted.
+Print Assumptions C07_format_idempotent_before_fix_refuted.
+
+(* exact indentation: a non-blank statement at block depth d ([at_depth], defined in
+   FormatDepthProofs.v from the tree: 0 at top level, +1 per enclosing if/else/while/for/func/on
+   body) is written at the beginning of a line behind exactly 4*d spaces, and its own text
+   starts with a non-blank character *)
+Theorem C07_statement_at_exact_depth : forall (fixed : fixes) (p : fprog) (d : nat) (s : fstmt),
+  at_depth p d s -> is_blank s = false -> wf_stmt s = true ->
+  exists pre post,
+    format fixed p = pre ++ spaces (4 * d) ++ render (fmt_stmt fixed d s) ++ [10] ++ post
+    /\ (pre = [] \/ exists q, pre = q ++ [10])
+    /\ exists c r, render (fmt_stmt fixed d s) = c :: r /\ is_space c = false.
+Proof. exact stmt_at_exact_depth. Qed.
+Print Assumptions C07_statement_at_exact_depth.
+
+(* the output skeleton of one pass never has two consecutive blank lines *)
+Theorem C07_output_skeleton_has_no_adjacent_blank_lines : forall ks : list skind,
+  no_adj_empty (skel_step (fix_nl current_fixes) ks) = true.
+Proof. exact skel_step_no_adj_empty. Qed.
+Print Assumptions C07_output_skeleton_has_no_adjacent_blank_lines.
+
+(* idempotence of the formatter model at top level, as far as it can be said without a parser
+   model: ANY tree whose top-level statement kinds are the skeleton of a formatter output is
+   written statement by statement — the second pass inserts no blank line and squeezes none
+   (the harness checks that the kinds of the real re-parse are that skeleton) *)
+Theorem C07_second_pass_is_plain : forall (p : fprog) (ks : list skind),
+  map stmt_kind p = skel_step (fix_nl current_fixes) ks ->
+  fmt_prog current_fixes p = flat_map (plain_line current_fixes) p.
+Proof. intros p ks H. exact (second_pass_is_plain current_fixes p ks eq_refl H). Qed.
+Print Assumptions C07_second_pass_is_plain.
 
 (* `evy fmt -c` *)
 Theorem C07_check_accepts_iff_formatted : forall (parse : str -> option fprog) (fixed : fixes) (t : str),
@@ -151,3 +182,17 @@ Example C07_close_bracket_after_comment :
   format no_fixes p = s_ "if true" ++ k_nl ++ s_ "    x := [1 // c" ++ k_nl ++ s_ "]" ++ k_nl ++ s_ "end" ++ k_nl /\
   format all_fixes p = s_ "if true" ++ k_nl ++ s_ "    x := [1 // c" ++ k_nl ++ s_ "    ]" ++ k_nl ++ s_ "end" ++ k_nl.
 Proof. vm_compute. repeat split; reflexivity. Qed.
+
+(* a statement three blocks deep *)
+Example C07_depth_example :
+  let inner := SCall (s_ "print") [FNum 0 (s_ "1")] [] in
+  let p := [SFunc (s_ "f") None [] None []
+              [SWhile (FBool true) [] [SEmpty []; SIf (CBlock (FBool true) [] [inner]) [] None []] []] []] in
+  at_depth p 3 inner.
+Proof.
+  right. eexists. split; [left; reflexivity|].
+  eapply nested_step; [left; reflexivity | left; reflexivity|].
+  eapply nested_step; [left; reflexivity | right; left; reflexivity|].
+  eapply nested_direct; [left; reflexivity | left; reflexivity].
+Qed.
+
